@@ -109,6 +109,14 @@ fn external_confirm_expire_n2() {
 }
 }
 
+tracing_off! {
+#[kani::proof]
+#[kani::unwind(12)]
+fn external_confirm_expire_n3() {
+    check_confirm_expire::<3>();
+}
+}
+
 /// documented capacity: a 21st confirmed address evicts the oldest (last) one
 tracing_off! {
 #[kani::proof]
